@@ -672,7 +672,22 @@ def replay_errors(fid):
     return _has(error_checks(), fid)
 
 
-REPLAYERS = {"replay_pair": replay_pair, "replay_triple": replay_triple, "replay_nested": replay_nested,
+def shared_arg(x, extra):
+    """a nested dictionary in which ONE sub-dictionary object stands under two keys ({'a': sub, 'b': sub}); by value it is an
+    ordinary nested dictionary of the property's domain"""
+    sub = clone(x)
+    d = {"a": sub, "b": sub}
+    if extra is not None:
+        d["c"] = clone(extra)
+    return d
+
+
+def replay_shared(x, extra, b, L, swap, fid):
+    a = shared_arg(x, extra)
+    return _has(pair_checks(b, a, L) if swap else pair_checks(a, b, L), fid)
+
+
+REPLAYERS = {"replay_shared": replay_shared, "replay_pair": replay_pair, "replay_triple": replay_triple, "replay_nested": replay_nested,
              "replay_split": replay_split, "replay_zip": replay_zip, "replay_group_plots": replay_group_plots,
              "replay_map_group": replay_map_group, "replay_update_str": replay_update_str, "replay_errors": replay_errors}
 
@@ -826,6 +841,31 @@ def body(R):
                 "ALL %d ordered triples of the %d depth-1 dictionaries over {a, b} with leaves %r; levels (omitted, 1)"
                 % (Bt.n ** 3, Bt.n, [0, None, 1, {}]), True)
         run_triples(Bt, itertools.product(range(Bt.n), repeat=3), (None, 1))
+
+    # ---- B2: arguments in which one sub-dictionary OBJECT stands under two keys
+    xs = [d for d in Bt.d if d]
+    ys = [0, {}] + list(Bt.d)
+    R.scope("pairs: all laws when an argument holds ONE sub-dictionary object under two keys",
+            "d1 = {'a': sub, 'b': sub} (the same object twice; optionally a third item) for all %d non-empty depth-1 "
+            "dictionaries sub over {a, b} with leaves [0, None, 1, {}], d2 = {'a': y, 'b': z} for all y, z among 0, {} and those "
+            "dictionaries; both argument orders; levels (omitted, 1, 2, 3): by value these are nested dictionaries of the "
+            "property's domain, every clause (greatest common dictionary, commutative, deep copy, arguments unchanged, "
+            "difference, reconstruction) must hold as for unshared arguments" % len(xs), True)
+    for x in xs:
+        for extra in (None, x):
+            for y in ys:
+                for z in ys:
+                    b = {"a": clone(y), "b": clone(z)}
+                    for L in (None, 1, 2, 3):
+                        for swap in (False, True):
+                            a = shared_arg(x, extra)
+                            b2 = clone(b)
+                            fails = pair_checks(b2, a, L, upd=False) if swap else pair_checks(a, b2, L, upd=False)
+                            R.case(True, {"shared": x, "d2": b, "level": L, "swapped": swap})
+                            if fails:
+                                report(R, fails, "replay_shared", [clone(x), clone(extra), clone(b), L, swap],
+                                       {"d1": "{'a': sub, 'b': sub%s} with sub = %r" % (", 'c': copy of sub" if extra is not None else "", x),
+                                        "d2": clone(b), "level": L, "swapped": swap})
 
     # ---- C: two keys, depth 2, leaves 0/1/{}
     Cd = Domain(build("ab", 2, TINY))
